@@ -707,6 +707,8 @@ impl DbInner {
 	}
 
 	fn commit_raw(&self, commit: CommitChangeSet) -> Result<()> {
+		#[cfg(pdb_verif_scaled)]
+		const MAX_COMMIT_QUEUE_BYTES: usize = crate::verif::MAX_COMMIT_QUEUE_BYTES;
 		let mut queue = self.commit_queue.lock();
 
 		#[cfg(any(test, feature = "instrumentation"))]
@@ -764,6 +766,10 @@ impl DbInner {
 	}
 
 	fn process_commits(&self, db: &Arc<DbInner>) -> Result<bool> {
+		#[cfg(pdb_verif_scaled)]
+		const MAX_COMMIT_QUEUE_BYTES: usize = crate::verif::MAX_COMMIT_QUEUE_BYTES;
+		#[cfg(pdb_verif_scaled)]
+		const MAX_LOG_QUEUE_BYTES: i64 = crate::verif::MAX_LOG_QUEUE_BYTES;
 		#[cfg(any(test, feature = "instrumentation"))]
 		let might_wait_because_the_queue_is_full = self.options.with_background_thread;
 		#[cfg(not(any(test, feature = "instrumentation")))]
@@ -1091,6 +1097,10 @@ impl DbInner {
 	}
 
 	fn enact_logs(&self, validation_mode: bool) -> Result<bool> {
+		#[cfg(pdb_verif_scaled)]
+		const MAX_LOG_QUEUE_BYTES: i64 = crate::verif::MAX_LOG_QUEUE_BYTES;
+		#[cfg(pdb_verif_scaled)]
+		const MAX_LOG_FILES: usize = crate::verif::MAX_LOG_FILES;
 		let _iteration_lock = self.iteration_lock.lock();
 		let cleared = {
 			let reader = match self.log.read_next(validation_mode) {
